@@ -3,8 +3,8 @@ package main
 // C08a (C08, C01): SummaryGraph.addReturnEdge guards with `tupleIndex > len(g.Returns)`, and g.Returns is
 //       keyed by return INSTRUCTION: in a function with k return statements every edge into result
 //       index > k is dropped (one return statement, three results: result #2 has no incoming edge).
-// Native run prints the tainted string three times; `argot taint` reports only the flows of lines
-// marked `reported`.
+// Native run prints the tainted string three times. At the pinned commit `argot taint` missed the first
+// flow; repaired by f02a8b5 — kept as a regression case: every line marked `reported` must be reported.
 
 func source() string { return "tainted" }
 func sink(s string)  { println(s) }
@@ -21,7 +21,7 @@ func threeTwoReturns(x string, c bool) (int, int, string) {
 
 func main() {
 	_, _, s := three(source())
-	sink(s) // missed (C08a)
+	sink(s) // reported (was missed: C08a, repaired by f02a8b5)
 	_, t := two(source())
 	sink(t) // reported
 	_, _, u := threeTwoReturns(source(), len(t) > 0)
